@@ -35,6 +35,10 @@ def two_reduced(fn):
 def run(res, programs, tier):
     from . import c19
     c19.shared_r19_2(res, programs)
+    for P in programs:
+        if "dashu_int" in P.units:
+            _r13_6(res, P, P.name)
+            _r13_7(res, P, P.name)
     res.rule("R13.1", "every fn with two Reduced operands passes check_same_ring_* (rings from both operands) on every path to Return, directly or by delegation; the check dominates every kernel call")
     res.rule("R13.2", "Div reaches panic_divide_by_invalid_modulo on the None edge of inv(); inv_large returns None only on the zero / gcd != 1 edges")
     res.rule("R13.3", "Reduced(..) is constructed only in from_single/from_double/from_large; the check helpers compare by ptr::eq and diverge on mismatch")
@@ -405,3 +409,120 @@ def _r13_5(res, P, cfgname):
 LEVEL = LEVEL + ' Also (R13.4) every raw residue literal takes its value from a ring kernel, a reviewed producer, 0, or a value compared with the normalised divisor; (R15.4b, shared) Reduced::clone_from copies residue and ring on every path; (R19.2, shared) no modular step sits inside a debug assertion; compile-fail witness (thorough): a Reduced value cannot outlive its ring.'
 TECHNIQUE = 'must-pass-through of the ring-identity checks before every kernel; edge analysis of Option::None -> panic; constructor sets; provenance rule for raw residues; clone_from field completeness (must-pass-through over field writes); compile-fail witness'
 LEVEL = LEVEL + ' Also (R13.5) the Single and Double ring arms of a function call the same accessors on the ring.'
+
+
+# ---- R13.6: the conditional reduction is inclusive -----------------------------------------------------------
+# Residues are kept in [0, m).  After an addition / doubling / a short product the value lies in [0, 2m) and is
+# brought back by *one* conditional subtraction of the modulus; its test has to be `value >= m`: with a strict
+# test the value m itself survives (2 * (m/2) = m instead of 0) and every later operation works on an
+# unreduced residue.  In every function that compares a value with the ring's modulus (cmp_same_len /
+# cmp_in_place) and subtracts that modulus in place, the Ordering is tested with is_ge (or is_lt), never with
+# is_gt / is_le / is_eq / is_ne.
+_CMPS = ("cmp::cmp_same_len", "cmp::cmp_in_place")
+_SUBS = ("add::sub_same_len_in_place", "add::sub_in_place")
+_ORD_OK = ("is_ge", "is_lt")
+_ORD_BAD = ("is_gt", "is_le", "is_eq", "is_ne")
+
+
+def _r13_6(res, P, cfgname):
+    res.rule("R13.6", "a conditional subtraction of the modulus is guarded by an inclusive comparison (value >= modulus): a residue equal to the modulus is reduced to 0")
+    n = 0
+    for f in P.fns("dashu_int"):
+        body = f.get("mir")
+        if not body or "::modular::" not in f["p"]:
+            continue
+        calls = [(bb, t, (fr.get("rp") or fr["p"])) for bb, t, fr in mir.iter_calls(body) if fr]
+        if not any(cp.endswith(_SUBS) for bb, t, cp in calls):
+            continue
+        du = mir.defuse_of(body)
+        k = 0
+        for bb, t, cp in calls:
+            if not cp.endswith(_CMPS):
+                continue
+            # copies of the Ordering result
+            seen, st = set(), [t["d"]["l"]]
+            while st:
+                l = st.pop()
+                if l in seen:
+                    continue
+                seen.add(l)
+                for (b2, idx, node) in du.uses.get(l, []):
+                    if idx != "t" and node["k"] == "as" and node["rv"]["k"] in ("use", "ref"):
+                        st.append(node["p"]["l"])
+            tests = []
+            for b2, t2, cp2 in calls:
+                if cp2.startswith("core::cmp::Ordering::is_"):
+                    used = set()
+                    mir.walk_places(t2["a"], lambda pl: used.add(pl["l"]))
+                    if used & seen:
+                        tests.append((cp2.rsplit("::", 1)[-1], t2))
+            if not tests:
+                # the Ordering is consumed in another form (match, comparison with a constant): not decided here,
+                # counted so that the anchor (comparison + in-place subtraction in one kernel) stays visible
+                n += 1
+                k += 1
+                res.ok("R13.6", cfgname, "%s|reduction test #%d" % (f["p"], k), nontrivial=False,
+                       sample=dict(function=f["p"], note="Ordering not tested through is_*(): form not decided"))
+            for name, t2 in tests:
+                k += 1
+                n += 1
+                key = "%s|reduction test #%d" % (f["p"], k)
+                if name in _ORD_OK:
+                    res.ok("R13.6", cfgname, key, sample=dict(function=f["p"], test=name))
+                else:
+                    res.fail("R13.6", cfgname, key, "%s guards the subtraction of the modulus with Ordering::%s: a value equal to the modulus is not reduced "
+                             "(residues must stay in [0, m))" % (f["p"], name), mir.span_loc(t2.get("sp") or f["sp"]))
+    res.floor("R13.6", cfgname, n, 4, "conditional reductions against the modulus")
+LEVEL = LEVEL + ' (R13.6) every conditional subtraction of the modulus in the multi-word ring kernels is guarded by an inclusive comparison (value >= modulus).'
+
+
+# ---- R13.7: a raw product is reduced before it is returned ---------------------------------------------------
+# mul_normalized / sqr_normalized build the double-length product of two residues and hand back a residue: every
+# path from a block that computes a product (mul::multiply, sqr::sqr, or the one-word `a0 * b0`) to a return
+# passes the long division by the modulus or the comparison with the modulus that guards the conditional
+# subtraction (R13.6).  A product of two residues below m that happens to fit n words is still up to m^2 - 1.
+_PRODUCERS = ("mul::multiply", "sqr::sqr", "mul::multiply_in_place")
+_REDUCERS = ("div::div_rem_in_place", "cmp::cmp_same_len", "cmp::cmp_in_place", "div::div_rem_unshifted_in_place")
+
+
+def _r13_7(res, P, cfgname):
+    res.rule("R13.7", "multi-word ring multiplication: every path from a product (mul::multiply / sqr::sqr / one-word product) to a return "
+                      "passes the division by the modulus or the comparison guarding the conditional subtraction")
+    n = 0
+    for f in P.fns("dashu_int"):
+        body = f.get("mir")
+        if not body or "::modular::mul::" not in f["p"] or f.get("kind") == "Closure":
+            continue
+        prod, red = [], set()
+        for bb, t, fr in mir.iter_calls(body):
+            cp = fr and (fr.get("rp") or fr["p"]) or ""
+            if cp.endswith(_PRODUCERS):
+                prod.append((bb, cp, t.get("sp", "")))
+            if cp.endswith(_REDUCERS):
+                red.add(bb)
+        for i, j, st in mir.iter_stmts(body):
+            if st["k"] == "as" and st["rv"]["k"] == "bin" and st["rv"]["op"] in ("Mul", "MulWithOverflow", "MulUnchecked"):
+                l = mir.op_local(st["rv"]["a"])
+                if l is not None and body["locals"][l]["ty"] in ("u128", "u64", "u32") and not mir.op_const(st["rv"]["b"]) \
+                        and body["locals"][l]["ty"] != "usize" and _is_dword(P, body["locals"][l]["ty"]):
+                    prod.append((i, "one-word product", st.get("sp", "")))
+        if not prod:
+            continue
+        cfg = mir.cfg_of(body)
+        rets = [b for b in cfg.reachable() if body["bbs"][b]["t"]["k"] == "ret"]
+        for k, (bb, cp, sp) in enumerate(prod):
+            n += 1
+            key = "%s|product #%d (%s)" % (f["p"], k + 1, cp.rsplit("::", 1)[-1])
+            if bb in red or cfg.must_pass(red, src=bb, targets=rets):
+                res.ok("R13.7", cfgname, key, sample=dict(function=f["p"], product=cp))
+            else:
+                res.fail("R13.7", cfgname, key, "%s: a path from the %s to a return passes neither the division by the modulus nor the comparison with it: "
+                         "the product of two residues is handed back unreduced" % (f["p"], cp), mir.span_loc(sp or f["sp"]))
+    res.floor("R13.7", cfgname, n, 4, "products in the multi-word ring multiplication")
+
+
+def _is_dword(P, ty):
+    """the double word (u128 with 64-bit words, u64 with 32-bit words); usize index arithmetic is excluded by the caller"""
+    return ty in ("u128", "u64")
+LEVEL = LEVEL + ' (R13.7) every product computed by mul_normalized / sqr_normalized passes the division by the modulus or the guarded conditional subtraction before it is returned.'
+
